@@ -63,6 +63,16 @@ CHECKS.update({
             "For every cohort and missing pattern of the bounded space the dataset tensors are rewritten with each fill value (0, finite, huge, NaN, +-inf) at masked positions and padded visits and with 0-2 extra padding visits; likelihood terms, statistics, parameter updates, trajectories at real visits, scripted fits and personalizations must be bit-identical (same shapes) or rounding-identical (other padding), counts and noise must equal a float64 reference over observed entries, and results must not depend on which other entries are missing.",
             "Cohorts of 2-3 individuals with <= 3 visits; personalization / fit part on the smallest shapes; LME and constant models not covered."),
 })
+CHECKS.update({
+    "C10": ("exploration", "exhaustive grid enumeration of states (individual log-accelerations, population values, sources, cohort sizes) through the real re-centring step and of (v0, g, betas) products through the real mixing-matrix construction, against float64 re-derivations",
+            "For every state of the grid the real compute_sufficient_statistics is applied to a cloned State and trajectories, attachment terms, event terms and the set of modified variables are compared before/after; for every (dimension, sources, v0, g, betas) of the grid every row of mixing_matrix and every space shift is checked orthogonal to the direction of progression in the model's own metric (also through autograd tangents of the real model function) and the basis has full rank.",
+            "Grid alphabets only; Bernoulli attachment and 2-event joint models not covered; points where (G v0)[0] == 0 are unreachable from the models and excluded."),
+})
+CHECKS.update({
+    "C18": ("exploration", "exhaustive enumeration of models x feature lists x random and table-driven designs x seeds, and of an invalid-design catalogue, through the real simulate() with recording wrappers on every random source",
+            "Every valid design of the grid (random designs over small alphabets of all parameters, every visit table with <= 3 rows plus hand tables) is simulated with every catalogue model and feature list under a draw budget / alarm: individuals, rounded unique increasing ages, finite values in [0,1], one reported parameter row per individual, columns holding the named feature's trajectory for the reported parameters; every invalid design must be refused with LeaspyAlgoInputError before any random draw.",
+            "Design alphabets are small; validity is the documented requirement set; NaN / inf / bool parameter values and unknown feature names are outside the space."),
+})
 NOT_APPLICABLE = {}
 
 def main():
